@@ -8,7 +8,7 @@ EXPLANATION = ("Decides necessary conditions for DPOR to consider both orders of
                "T3 required conflicts, T6 recency selection), wiring of Execution::schedule (T4), dispatch exhaustiveness (T5), and how a detected "
                "race becomes a backtrack point (E1: the racing thread if enabled there, else all threads; B1: walk-back). Completeness of the reduction "
                "itself and which outcomes appear are not decided."
-               " Added after the seeding rounds: the lookup consults only the action, the access slots and markers set_last_access maintains (T7), Thread.dpor_vv is written only at spawn and in schedule (T8), no extra condition on recording a backtrack point (T4), an RMW is offered every maximal store (M5b), and the generic cross-checks G0 (no new condition on a backtrack/arm/branch/record-access step) and G1 (no such step dropped from a path) against the reference tree.")
+               " Added after the seeding rounds: the lookup consults only the action, the access slots and markers set_last_access maintains (T7), Thread.dpor_vv is written only at spawn and in schedule (T8), no extra condition on recording a backtrack point (T4), an RMW is offered every maximal store (M5b), and the generic cross-checks G0 (no new condition on a backtrack/arm/branch/record-access step) and G1 (no such step dropped from a path) against the reference tree. What a non-blocking try_* operation can observe changes only at branch points (V4; on the current tree lock releases are not branch points: known finding KF-N).")
 RULE_TEXT = ("rule instances = operations (V1/V2), dependence-table cells (T1-T3), wiring events (T4), dispatch arms (T5); "
              "non-trivial when matched to concrete MIR sites")
 LEVEL_NOTE = "necessary conditions only; the DPOR completeness theorem is not decided"
@@ -24,6 +24,9 @@ def run(ctx):
     pathrules.B1(ctx)
     # ... and survives until it is explored: the explored alternative is retired before the next one is promoted
     pathrules.X6(ctx)
+    # what a non-blocking operation can observe changes only at branch points
+    from . import round6
+    round6.V4(ctx)
     from . import atomics
     atomics.M5b(ctx)
     from . import guardvocab
